@@ -266,8 +266,27 @@ def c04d(ck, prog):
     f = prog.method(r"^ohkami::router::base::FangsList$", "into_proc_with")
     nxt = [c for c in f.calls() if re.search(r"Iterator::next$", c.decl or "")]
     fold = [c for c in f.calls() if re.search(r"Iterator::fold$", c.decl or "")]
-    ok = len(nxt) == 1 and len(fold) == 1
-    if ok:
+    if not nxt and len(fold) == 1:
+        # equivalent form: fold over *all* lists seeded with the handler's own proc (an empty list yields the bare handler)
+        seed = decision.describe_deep(f, fold[0].args[1], 5)
+        ok = re.search(r"(^|\{|,)arg2\.proc", seed) is not None and "build(" not in seed
+        ck.ob(R, "into_proc_with:seed", ok, f.loc(fold[0].sp), "" if ok else "the fold over the fang lists is seeded with %s, expected the handler's own proc" % seed[:80], how="seed = h.proc")
+        clos = f.origin(fold[0].args[2])
+        cf = prog.fns.get(clos[-1][1][1].get("def")) if clos and clos[-1][0] == "agg" else None
+        b = [c for c in cf.calls() if c.name == "build"] if cf is not None else []
+        d = decision.describe_deep(cf, b[0].args[1], 3) if b else "?"
+        recv = decision.describe_deep(cf, b[0].args[0], 3) if b else "?"
+        ok = len(b) == 1 and re.match(r"arg2(\.0)?$", d) is not None and "arg3" in recv
+        ck.ob(R, "into_proc_with:step", ok, (cf or f).loc(None), "" if ok else "the fold step builds %s.build(%s), expected fangs.build(proc)" % (recv, d), how="|proc, fangs| fangs.build(proc)")
+        src = paths.root_call(f, fold[0].args[0])
+        ok = src is not None and "arg1" in decision.describe_deep(f, fold[0].args[0], 4)
+        ck.ob(R, "into_proc_with:same-iterator", ok, f.loc(None), "" if ok else "the fold does not run over this list", how="self.into_iter().fold(h.proc, ..)")
+        ck.ob(R, "into_proc_with:no-fangs", True, f.loc(None), how="an empty list folds to the seed = h.proc", nontrivial=False)
+        nxt = None
+    ok = nxt is not None and len(nxt) == 1 and len(fold) == 1
+    if nxt is None:
+        pass
+    elif ok:
         seed = decision.describe_deep(f, fold[0].args[1], 5)
         ok = "build(" in seed and "next(" in seed and ".proc" in seed
         ck.ob(R, "into_proc_with:seed", ok, f.loc(fold[0].sp), "" if ok else "the fold over the fang lists is seeded with %s, expected most_inner.build(h.proc)" % seed[:80], how="seed = first.build(h.proc)")
@@ -367,20 +386,41 @@ def c04g(ck, prog):
                 scan = (fa, d)
             if fa.call.name == "all" and fa.truth and re.search(r"iter\((deref\()?arg1\.0", d):
                 scan = (fa, d)
+        if scan is None:
+            # the search may live in a helper method of the list (`if !self.contains(&id)`): read the helper
+            for fa in guards.facts_at(add, prog, p.bb):
+                if fa.kind != "boolcall" or fa.call.callee not in prog.fns:
+                    continue
+                h = prog.fns[fa.call.callee]
+                if "FangsList" not in (h.self_ty or ""):
+                    continue
+                hc = [c for c in h.calls() if c.name in ("any", "all", "find", "position", "contains")]
+                if len(hc) != 1 or not re.search(r"iter\((deref\()?arg1\.0", decision.describe_deep(h, hc[0].args[0], 6)):
+                    continue
+                # helper answers `true` iff found (any / contains) -> the push needs it false; `is_none(find)`-style helpers the reverse
+                pos = hc[0].name in ("any", "contains")
+                rets = paths.ret_sites(h)
+                direct = len(rets) == 1 and rets[0][1] == "call" and rets[0][2].bb == hc[0].bb
+                if direct and ((pos and not fa.truth) or (hc[0].name == "all" and fa.truth)):
+                    scan = (fa, "%s(..) = %s" % (h.name, decision.describe_deep(h, hc[0].args[0], 4)))
+                    scan_call = (h, hc[0])
         ok = scan is not None
         why = "the push in FangsList::add is not guarded by a search of the whole list for the application id (e.g. only its last entry is looked at): appending two equal lists of two or more entries, as the final tree's compression does, duplicates them and those fangs run twice"
         if ok:
             # the predicate compares the id parameter
             fa, d = scan
             cl = None
-            call = fa.call if fa.call.name in ("any", "all", "contains") else None
+            host = add
+            call = fa.call if fa.call.name in ("any", "all", "contains") and fa.call.callee not in prog.fns else None
+            if call is None and fa.call.callee in prog.fns:
+                host, call = scan_call
             if call is None:
                 st = add.origin(fa.call.args[0])
                 call = st[-1][1] if st and st[-1][0] == "call" else None
             names = set()
             if call is not None:
                 for a in call.args:
-                    st = add.origin(a)
+                    st = host.origin(a)
                     if st and st[-1][0] == "agg" and st[-1][1][1].get("k") == "closure":
                         g = prog.fns.get(st[-1][1][1]["def"])
                         if g is not None:
